@@ -79,6 +79,8 @@ def snaLoad (fx : Fix) (r : Recv) : M Unit := do
   let _ ← seekM (.start 0)
   let is128 := decide (SNA_48K_SIZE < size)
   guardM (!is128 && decide (size < SNA_48K_SIZE)) (.io .unexpectedEof)
+  -- repaired code: the snapshot kind must match the machine, checked before anything is touched
+  guardM ((fx .snaPage && is128 && !r.m128) || (fx .snaRev && !is128 && r.m128)) .machineNotSupported
   let h ← readExactM 27
   let a ← getAsset
   -- emulator.cpu.set_im(header[25] & 3)
